@@ -3,7 +3,8 @@
 CLAIMED = {
     "C20": {
         "category": "other",
-        "technique": "static analysis: abstract evaluation of the arrangement if/elif chains over the complete finite domain member x {member,text}; dominance of a raising guard before the logarithm",
+        "technique": "static analysis: abstract evaluation of the arrangement if/elif chains over the complete finite domain member x {member,text}; dominance of a raising guard before the logarithm"
+                     ' Also PURE: no function of the module writes module-level state (memo tables).',
         "text": "Decides the label-form clause of C20 exhaustively (8 arrangements x 2 label forms x 2 directions, plus sibling coverage) "
                 "and that compute_LMTD_from_dts refuses non-positive differences before taking the logarithm. Holds for every input because "
                 "the label domain is finite and the rest is control-flow shape.",
@@ -14,7 +15,8 @@ CLAIMED = {
     "C19": {
         "category": "other",
         "technique": "static analysis: class-local forward dataflow (cache-invalid / fresh facts over a powerset domain), who-may-store rule on the member map, "
-                     "derived-field dependency table and refresh obligation per base-field writer, linear-form check of the shift direction, order facts for the hot/cold helper guards",
+                     "derived-field dependency table and refresh obligation per base-field writer, linear-form check of the shift direction, order facts for the hot/cold helper guards"
+                     ' Also: concatenation feeds from both operands (WHO-CONCAT); nobody in the package switches overwrite prevention off.',
         "text": "Decides for every method of StreamCollection that a member write leaves the sort cache invalid on every normal exit and that every cache read is "
                 "dominated by the recompute; that only the renaming insert stores into the member map; and for Stream that every writer of a base field "
                 "(temperatures, duty, contribution, coefficient) refreshes every derived field that depends on it, the shift direction matches the stream kind, "
@@ -28,7 +30,8 @@ CLAIMED = {
         "category": "other",
         "technique": "static analysis: None-guard memo invalidation dataflow on PinchProblem; DataFrame-typed call sites checked against the installed pandas attribute table; "
                      "string-length abstract interpretation (linear upper-bound terms) proving sheet names <= 31 for all names, uniqueness discipline and sanitiser "
-                     "character class (re._parser); reader column tables vs schema required fields; sibling-reader helper agreement",
+                     "character class (re._parser); reader column tables vs schema required fields; sibling-reader helper agreement"
+                     ' MEMO-CACHE: the result is recomputed only behind a None guard.',
         "text": "Decides the structural clauses of C16: every path of PinchProblem.load that stores a new problem leaves the cached result reset (all load/target "
                 "histories); the CSV/workbook readers only call DataFrame methods that exist in the installed pandas; exported sheet names are at most 31 characters, "
                 "free of forbidden characters and unique within a workbook for ALL zone/target names (a proof over symbolic string lengths, not a sample); "
@@ -64,7 +67,8 @@ CLAIMED = {
     "C07": {
         "category": "other",
         "technique": "static analysis: typestate of column views and row indices across buffer-replacing table methods (derived from the table class), bottom-up may-insert "
-                     "summaries over the call graph, path-sensitive on the insertion count (n == 0 keeps views valid), guard-aware copy-coherence (contradiction) rule for rebased indices",
+                     "summaries over the call graph, path-sensitive on the insertion count (n == 0 keeps views valid), guard-aware copy-coherence (contradiction) rule for rebased indices"
+                     ' Also: stale derived index values (I4), source GCC column read-only (SRC-RO), mirrored direction branches (MIRROR), insertion count = buffer growth (COUNT).',
         "text": "Decides the index/view bookkeeping clause of C07 for any number of insertions: in the pocket sweep and all its callers no column view is used after a row "
                 "insertion without re-fetching (I1), row indices handed to a callee that may insert are re-bound from its result (I2), and when the code rebases one alias of "
                 "a row index by the inserted-row count every live alias is rebased too (I3) - the defect that made the sweep stop early with two or more insertions above the pinch.",
@@ -76,7 +80,8 @@ CLAIMED = {
         "category": "other",
         "technique": "static analysis: must-define-before-use of the per-zone target registry by symbolic exploration of the zone-type handlers over all option-flag "
                      "assignments and child zone types (greatest fix-point for recursive handlers), requirements derived from the entry functions' own bodies; "
-                     "typed attribute-existence check on Configuration; handler-table exhaustiveness and label-form agreement",
+                     "typed attribute-existence check on Configuration; handler-table exhaustiveness and label-form agreement"
+                     ' Also: column define-before-use on every option path with context-sensitive must-write summaries (COLDEF), handler consistency of the nested zone-type dispatch with the handler table (ORDER-DISPATCH), loop-variable discipline of sub-zone loops (LOOPVAR), strict division guards (DIV-GUARD).',
         "text": "Decides three totality clauses of C14 for all option combinations and zone trees: (ORDER) no path through the handlers reads a target record before it was "
                 "stored; (ATTR) every option attribute the pipeline reads exists on Configuration; (T4) every root zone type that preparation produces has a handler keyed in "
                 "the form the lookup uses, and zone identifiers are only compared with the text form. Six genuine violations of the pinned tree are recorded as known findings "
@@ -88,7 +93,8 @@ CLAIMED = {
     "C08": {
         "category": "other",
         "technique": "static analysis: writer/reader table agreement - every cumulative column label written anywhere in the package is a member of the interpolation table; "
-                     "no duplicate entries; CP/dH pairing table checked against the label enumeration",
+                     "no duplicate entries; CP/dH pairing table checked against the label enumeration"
+                     ' Also COUNT: the returned insertion count is the quantity the buffer grew by (alias-following).',
         "text": "Decides the table clause behind 'inserting temperature intervals never changes any curve': a cumulative column that some function writes but the "
                 "interpolation table omits is copied or zeroed in inserted rows, for every later insertion in the pipeline. The check enumerates all column writes "
                 "(subscript stores and dict literals keyed by ProblemTableLabel) and the two module tables on every run.",
@@ -99,7 +105,8 @@ CLAIMED = {
     "C13": {
         "category": "other",
         "technique": "static analysis: graph-type producer/consumer table agreement (tested key = key argument = subscript; requested columns subset of sliced columns; "
-                     "parallel literal lists of equal length; sibling consumers agree on per-series flags) and traversal parity between the record report and the graph-set builder",
+                     "parallel literal lists of equal length; sibling consumers agree on per-series flags) and traversal parity between the record report and the graph-set builder"
+                     ' Traversal rule follows helper functions and rejects sub-zone recursion guarded by anything other than the sub-zones themselves.',
         "text": "Decides the structural clause 'each target record has exactly one graph set, keyed by its own name, with the documented graph types, each graph reading the "
                 "columns that were stored for it': for every graph type the builder renders, the key it tests, the key it emits and the table slice it reads agree, the "
                 "columns exist in every producer's slice, and both traversals visit every target of every zone.",
@@ -138,7 +145,8 @@ CLAIMED = {
     "C02": {
         "category": "other",
         "technique": "static analysis: interprocedural witness-value analysis of index / slice-start expressions (negative wrap-around), pairing rules on the generation/use "
-                     "matching, same-source rule for the site's hot/cold targets, accumulator discipline of the zone summation, argument/parameter name agreement",
+                     "matching, same-source rule for the site's hot/cold targets, accumulator discipline of the zone summation, argument/parameter name agreement"
+                     ' Also: producer/consumer filter agreement for the default-utility decision (DEFAULT-FILTER).',
         "text": "Decides necessary bookkeeping conditions of the first-law balance of every record: the cold-side search window cannot wrap around when the pinch is the first "
                 "row (the defect that zeroed total-site Qc), generation/use matching removes one common min()-bounded duty from both sides, the total-site Qh and Qc are the two "
                 "ends of one cascade column, every zone total is initialised once and fed exactly once per sub-zone from the same-named attribute, and target values are not "
@@ -150,7 +158,8 @@ CLAIMED = {
     "C03": {
         "category": "other",
         "technique": "static analysis: witness-value analysis for wrap-around of the per-side segment selection; booking rule (every assigned duty added to the running total "
-                     "in the same block, early exit tests that total); index-aligned per-utility zone sums; argument/parameter name agreement",
+                     "in the same block, early exit tests that total); index-aligned per-utility zone sums; argument/parameter name agreement"
+                     ' Also: DEFAULT-FILTER (utilities that suppress a default are the ones that get instantiated), SEED (utility streams start with zero duty).',
         "text": "Decides that the per-side segment handed to the allocator cannot wrap, that every duty given to a utility is booked against the side's target before the next "
                 "level is sized (nothing double counted or forgotten), and that the total-process record adds each utility's zone duties index by index.",
         "design_ref": "DESIGN.md 3.2 WRAP, PAIR / ACC",
@@ -168,7 +177,8 @@ CLAIMED = {
     "C09": {
         "category": "other",
         "technique": "static analysis: accumulator discipline of the zone summation (initialised outside the loop, fed exactly once per sub-zone with the same-named attribute "
-                     "of the sub-zone's direct-integration record), index-aligned per-utility sums, summation on deep copies, argument/parameter name agreement",
+                     "of the sub-zone's direct-integration record), index-aligned per-utility sums, summation on deep copies, argument/parameter name agreement"
+                     ' Also: zero-seeded utilities (SEED) and fresh destination collections under every flag assignment of the sub-zone import (FRESH-DST).',
         "text": "Decides the additivity sentence of C09: the total-process record is the sum of its zones' direct-integration targets value by value and utility by utility, "
                 "computed on private copies so the zones' own utilities are not overwritten.",
         "design_ref": "DESIGN.md 3.2 ACC, OWN",
